@@ -9,7 +9,7 @@ from ..findings import still_fails
 
 ID = "C02"
 LEAN_MODULES = ["PycModel.Properties.C02"]
-NAMESPACES = ["PycModel.C02", "PycModel.Tables", "PycModel.Climb", "PycModel.ClimbSim", "PycModel.ClimbConcrete", "PycModel.View", "PycModel.OperandId", "PycModel.ParenExpr"]
+NAMESPACES = ["PycModel.C02", "PycModel.Tables", "PycModel.Climb", "PycModel.ClimbSim", "PycModel.ClimbConcrete", "PycModel.View", "PycModel.OperandId", "PycModel.ParenExpr", "PycModel.FullExpr"]
 REQUIRED_THEOREMS = ["PycModel.Tables.impl_prec_is_c99", "PycModel.Tables.impl_assign_ops_c99",
                      "PycModel.Tables.model_binary_precedence", "PycModel.Tables.model_assignment_ops",
                      "PycModel.Tables.model_starts_expression",
@@ -17,7 +17,8 @@ REQUIRED_THEOREMS = ["PycModel.Tables.impl_prec_is_c99", "PycModel.Tables.impl_a
                      "PycModel.C02.grammar_tree_unique", "PycModel.Climb.climb_correct", "PycModel.ClimbSim.sim",
                      "PycModel.View.peek_spec", "PycModel.View.advance_spec", "PycModel.View.peek_end",
                      "PycModel.ParenExpr.operand_spec", "PycModel.ParenExpr.parse_ok", "PycModel.View.fill_spec", "PycModel.View.peekK_spec",
-                     "PycModel.C02.expressions_parse_as_the_grammar_says"]
+                     "PycModel.C02.expressions_parse_as_the_grammar_says",
+                     "PycModel.FullExpr.parse_full", "PycModel.FullExpr.all_ok", "PycModel.C02.expression_skeleton_parses_as_the_grammar_says"]
 LEVEL = "proof"
 TRUSTED = ["Spec/Expr.lean: our reading of C99 6.5 (strata, associativity) and of the documented AST shapes"]
 ASSUMPTIONS = ["type names inside expressions (casts, sizeof(type), compound literals) are exercised by C03/C04, not here"]
